@@ -239,7 +239,10 @@ CLAIMED = {
         technique="Coq proof (reachable-state invariant by induction over label lists; generic preservation lemma for the joining coroutine; refutation witnesses by vm_compute) + behavioural probe facts + per-handle vm_compute trace correspondence on a single-step event loop",
         ref='6/C09'),
     'C10': dict(
-        text=("Proof (partial): on the TaskGroup LTS of C09, for EVERY label sequence in which members are spawned running: the "
+        text=("Proof (partial): on the TaskGroup LTS of C09, for EVERY label sequence (members spawned running and tasks added "
+              "when already finished - constructor, add_task - in any interleaving): the members consumed by join, queued in _done "
+              "and those whose _on_done callback is still queued never repeat and are exactly the finished non-daemon members "
+              "(exactly once); for sequences in which members are spawned running, the "
               "members consumed by join, then those queued in _done, then those whose _on_done callback is still in the ready "
               "queue are - without repetition - exactly the non-daemon members in the order in which they finished (exactly once, "
               "completion order); completed is the first consumed member that counts (object policy: that did not return None); "
@@ -251,7 +254,7 @@ CLAIMED = {
               "still running are then cancelled (follows for the end state from C09), that join raises no member exception, "
               "and the result/exception properties. "
               "Correspondence: as C09 plus the cancellation requests after every handle; oracle computed from the real run alone."),
-        note=TB + "Partial: next_done called by the application between join's iterations, add_task of an already finished task and the retain option are not in the model.",
+        note=TB + "Partial: next_done called by the application between join's iterations and the retain option (the tasks attribute) are not in the model; the tasks attribute is checked on the real runs by the oracle (retain on and off).",
         technique="Coq proof (order / exactly-once / first-finisher invariants by induction over label lists, generic preservation lemma for the joining coroutine) + per-handle vm_compute trace correspondence + policy oracle on the real runs",
         ref='6/C10'),
     'C08': dict(
